@@ -187,6 +187,33 @@ func cmdCheck(args []string) int {
 		reports = append(reports, rep)
 		all = append(all, rep.Obligations...)
 	}
+	// sweep: the no-panic obligations (nil dereference, index and slice bounds, division, conversions, closed
+	// channels, rand arguments, ...) of every other contract, each generated under the contract's own first property
+	if eng.cs.Sweeps[*prop] == "safety" && *only == "" {
+		for _, c := range eng.cs.allContracts() {
+			if c.Kind == "assume" || hasProp(c.Props, *prop) || len(c.Props) == 0 || strings.Contains(obName(c), "#locks") {
+				continue
+			}
+			rep, err := eng.verify(c, c.Props[0])
+			if err != nil {
+				continue
+			}
+			var keep []*Obligation
+			for _, ob := range rep.Obligations {
+				if ob.Kind == "safety" {
+					ob.Prop = *prop
+					keep = append(keep, ob)
+				}
+			}
+			if len(keep) == 0 {
+				continue
+			}
+			rep.Obligations = keep
+			rep.Sweep = true
+			reports = append(reports, rep)
+			all = append(all, keep...)
+		}
+	}
 	for _, lm := range eng.cs.Lemmas {
 		if !hasProp(lm.Props, *prop) {
 			continue
